@@ -504,14 +504,122 @@ fn shard(seed: u64, shard: u64, n: u64) -> Tally {
     t
 }
 
+/// One `CanonicalRequest` (the crate's `unstable` API) asked for its canonical form and digest under several signed
+/// subsets one after the other: each answer must be the reference header block for the subset asked about, whatever was
+/// asked before.
+#[cfg(feature = "unstable-api")]
+fn subset_sequences(seed: u64, shard: u64, n: u64) -> Tally {
+    use scratchstack_aws_signature::canonical::CanonicalRequest;
+    use scratchstack_aws_signature::SignatureOptions;
+    let mut t = Tally::new();
+    for i in 0..n {
+        let mut r = Rng::keyed(seed, "C11", "subset-seq", shard, i);
+        let cfg = gen_cfg(&mut r);
+        let o = GenOpts {
+            max_extra_headers: 6,
+            ..Default::default()
+        };
+        let l = gen_logical(&mut r, &cfg, &o);
+        let mut sr = Rng::keyed(seed, "C11", "subset-seq-spell", shard, i);
+        let mut sp = Speller {
+            r: &mut sr,
+            level: 1,
+        };
+        let (case, _) = make_case(&l, &cfg, &mut sp, &Overrides::default(), 0);
+        let rec = execute(&case);
+        t.eval();
+        let Some(j) = judge(&case, &rec) else {
+            continue;
+        };
+        if !rec.outcome.is_ok() || !matches!(j.analysis.verdict, Verdict::Accept) {
+            continue;
+        }
+        let (Some(cpath), Some(payload), Some(view)) = (j.analysis.cpath.clone(), j.analysis.payload_hash.clone(), rec.view.clone()) else {
+            continue;
+        };
+        let cquery = crate::rm::canon_query(&j.analysis.merged_pairs());
+        let Ok(req) = crate::exec::build_request(&case.wire) else {
+            continue;
+        };
+        let (parts, body) = req.into_parts();
+        let opts = SignatureOptions {
+            s3: case.cfg.s3,
+            url_encode_form: case.cfg.fold,
+        };
+        let built = std::panic::catch_unwind(std::panic::AssertUnwindSafe(|| CanonicalRequest::from_request_parts(parts, body, opts)));
+        let Ok(Ok((cr, _, _))) = built else {
+            t.inconclusive.push("subset sequences: the crate's CanonicalRequest could not be built for an accepted request".into());
+            continue;
+        };
+        // the names present in the request, lower case, once each
+        let mut present: Vec<String> = view.headers.iter().map(|(n, _)| String::from_utf8_lossy(n).to_string()).filter(|n| n != "authorization").collect();
+        present.sort();
+        present.dedup();
+        let steps = 2 + r.usize_below(3);
+        for step in 0..steps {
+            let mut subset: Vec<String> = match (step, r.below(3)) {
+                (0, _) | (_, 0) => present.iter().filter(|_| r.coin()).cloned().collect(),
+                (_, 1) => l.signed.clone(),
+                _ => present.clone(),
+            };
+            if !subset.iter().any(|n| n == "host") && present.iter().any(|n| n == "host") {
+                subset.push("host".into());
+            }
+            subset.sort();
+            subset.dedup();
+            let want = crate::rm::canonical_request(&view.method, &cpath, &cquery, &view.headers, &subset, &payload);
+            let got = std::panic::catch_unwind(std::panic::AssertUnwindSafe(|| (cr.canonical_request(&subset), cr.canonical_request_sha256(&subset))));
+            t.eval();
+            let Ok((got_text, got_digest)) = got else {
+                t.violate(violation("header-canon", "subset-sequence/panic", format!("canonical form for signed subset {:?} (question {} to one CanonicalRequest) panicked", subset, step + 1), &case, None));
+                break;
+            };
+            if got_text != want {
+                t.violate(violation(
+                    "header-canon",
+                    "subset-sequence/text",
+                    format!("question {} to one CanonicalRequest, signed subset {:?}: canonical request {:?}, reference {:?}", step + 1, subset, crate::json::show_bytes(&got_text), crate::json::show_bytes(&want)),
+                    &case,
+                    None,
+                ));
+                break;
+            }
+            if got_digest[..] != crate::sha::sha256(&want)[..] {
+                t.violate(violation(
+                    "header-canon",
+                    "subset-sequence/digest",
+                    format!("question {} to one CanonicalRequest, signed subset {:?}: the digest is not the SHA-256 of the canonical request for that subset (it {} the digest given for the previous subset)", step + 1, subset, if step > 0 { "may be" } else { "cannot be" }),
+                    &case,
+                    None,
+                ));
+                break;
+            }
+            if step > 0 {
+                t.count("later_subset_questions_answered_with_the_reference_block");
+            }
+        }
+    }
+    t
+}
+
+#[cfg(not(feature = "unstable-api"))]
+fn subset_sequences(_seed: u64, _shard: u64, _n: u64) -> Tally {
+    Tally::new()
+}
+
 pub fn run(tier: Tier) -> i32 {
     let mut ctx = Ctx::new("C11", tier);
     let pre = preflight();
     let seed = ctx.seed;
     let per = tier.n(700, 60_000);
     let mut tally = ctx.par(32, |s| shard(seed, s, per));
+    let ss = ctx.par(8, |s| subset_sequences(seed, s, tier.n(400, 20_000)));
+    tally.merge(ss);
     if let Err(e) = &pre {
         tally.inconclusive.push(e.clone());
+    }
+    if cfg!(feature = "unstable-api") {
+        ctx.gate("second and later signed-subset questions to one CanonicalRequest (crate's unstable API) answered with the reference header block", tally.get("later_subset_questions_answered_with_the_reference_block"), tier.n(3000, 150_000));
     }
     for k in NEUTRAL {
         ctx.gate(&format!("neutral change '{}' accepted", k), tally.get(&format!("neutral_accepted/{}", k)), tier.n(1000, 5000));
@@ -521,7 +629,7 @@ pub fn run(tier: Tier) -> i32 {
     }
     let rep = Report {
         level: "exploration",
-        rule: "W-sign parents with up to 8 extra headers (visible ASCII, 0x80–0xFF, inner spaces, repeated names with 2–4 values) and random signed subsets; children by one wire-level change: neutral (name letter case, order between different names, outer spaces / longer inner space runs (up to 200 spaces) in signed values, unsigned-unrequired-unconsulted headers added / removed / altered / duplicated; every other parent is validated by a service that declares always-required, required-if-present and prefix requirements, and a header is added whose name is a near miss of a declared one: a proper prefix of a declared prefix, a declared name plus or minus a letter) — must stay accepted; binding (every line of a signed header removed — also when its value was empty or blank —, a byte / an extra line of a signed Host, Content-Type or token header, Host with or without a default port or trailing dot, a byte of a signed value, appended byte, swap of two values of one signed name, dropped or duplicated value, a space moved into a token, an inner space removed, TAB for space) — must be refused. Two oracles: the parent/child relation (model-free; for neutral children also the provider's call arguments and the returned identity must equal the parent's) and the reference header block. Non-trivial = neutral child accepted / binding child refused with the signature-mismatch class; distinct by case hash.".into(),
+        rule: "W-sign parents with up to 8 extra headers (visible ASCII, 0x80–0xFF, inner spaces, repeated names with 2–4 values) and random signed subsets; children by one wire-level change: neutral (name letter case, order between different names, outer spaces / longer inner space runs (up to 200 spaces) in signed values, unsigned-unrequired-unconsulted headers added / removed / altered / duplicated; every other parent is validated by a service that declares always-required, required-if-present and prefix requirements, and a header is added whose name is a near miss of a declared one: a proper prefix of a declared prefix, a declared name plus or minus a letter) — must stay accepted; binding (every line of a signed header removed — also when its value was empty or blank —, a byte / an extra line of a signed Host, Content-Type or token header, Host with or without a default port or trailing dot, a byte of a signed value, appended byte, swap of two values of one signed name, dropped or duplicated value, a space moved into a token, an inner space removed, TAB for space) — must be refused. Plus, through the crate's `unstable` API, one CanonicalRequest asked for its canonical form and digest under 2–4 signed subsets in a row, each compared with the reference block for that subset. Two oracles: the parent/child relation (model-free; for neutral children also the provider's call arguments and the returned identity must equal the parent's) and the reference header block. Non-trivial = neutral child accepted / binding child refused with the signature-mismatch class; distinct by case hash.".into(),
         assumptions: vec!["'spaces' means 0x20 exactly; TAB is an ordinary value byte (DESIGN §6)".into()],
         extra: J::obj().set("calibrated_vectors", J::i(pre.unwrap_or(0) as i64)),
     };
